@@ -96,3 +96,14 @@ Proof. unfold formats_of. pose proof (inlines_text_eqd a s) as H. destruct (inli
 (* any observation that does not look at the diagnostics is the same on both sides *)
 Lemma eqd_get {A} (g : st -> A) a b : (forall s, g (nd s) = g s) -> a ~~ b -> g a = g b.
 Proof. intros Hg H. rewrite <- (Hg a), <- (Hg b). unfold eqd in H. rewrite H. reflexivity. Qed.
+
+(* more helpers that only log *)
+Lemma check_attributes_eqd : forall pairs seen s, check_attributes seen pairs s ~~ s.
+Proof.
+  assert (H : forall n pairs, (List.length pairs <= n)%nat -> forall seen s, check_attributes seen pairs s ~~ s).
+  { induction n as [|n IH]; intros [|k [|v r]] Hl seen s; cbn [check_attributes]; try reflexivity; cbn in Hl; try lia.
+    eapply eqd_trans; [apply IH; lia|]. destruct (existsb _ seen); [apply err_eqd|reflexivity]. }
+  intros pairs seen s. eapply H. apply le_n.
+Qed.
+Lemma fold_err_eqd {A} (f : st -> A -> st) (l : list A) : (forall a x, f a x ~~ a) -> forall s, fold_left f l s ~~ s.
+Proof. intros Hf. induction l as [|x l IH]; intro s; [reflexivity|]. cbn [fold_left]. eapply eqd_trans; [apply IH|apply Hf]. Qed.
